@@ -521,6 +521,26 @@ func (in *Interp) deferStmt(s *lang.N, env *Env) *Raise {
 			}
 			args = append(args, v)
 		}
+	case lang.EMeth:
+		// the receiver and the arguments are evaluated at the defer statement, the method runs later
+		recv, r := in.expr(call.A[0], env)
+		if r != nil {
+			return r
+		}
+		for _, a := range call.A[1:] {
+			v, r := in.expr(a, env)
+			if r != nil {
+				return r
+			}
+			args = append(args, v)
+		}
+		name := call.S
+		fr := in.frames[len(in.frames)-1]
+		fr.defers = append(fr.defers, func() *Raise {
+			_, r := in.method(recv, name, args)
+			return r
+		})
+		return nil
 	default:
 		panic("refsem: defer of non-call")
 	}
